@@ -306,7 +306,10 @@ def o153(ctx):
     sliced = False
     if len(loops) == 1 and len(apps) == 2:
         rng_args = getattr(loops[0].args[0], "range_args", None)
-        if rng_args is None or len(rng_args) != 1 or to_term(rng_args[0]) != sym("stack.n0"):
+        if rng_args is None:
+            # another way of walking the stack (enumerate over the images, zip, ...): which images it visits is not read off a range here
+            raise Unsupported("split_stack_even_odd: the loop over the tilt images is not a range(...) over the indices: not decided", loops[0].node)
+        if len(rng_args) != 1 or to_term(rng_args[0]) != sym("stack.n0"):
             ctx.finding(q, loops[0].node, "the split must visit every tilt index (range(n_tilts)): a stepped walk drops the last image "
                         "of an odd-sized stack", loops[0].node, m)
         else:
@@ -574,4 +577,4 @@ def _obligations():
 
 
 def obligations():
-    return _obligations() + [labels_obligation("C15"), selectors_obligation("C15"), mutations_obligation("C15"), effects_obligation("C15"), plumbing_obligation("C15"), overrides_obligation("C15"), options_obligation("C15"), handlers_obligation("C15")]
+    return _obligations() + [labels_obligation("C15"), selectors_obligation("C15"), mutations_obligation("C15"), loopstate_obligation("C15"), effects_obligation("C15"), plumbing_obligation("C15"), overrides_obligation("C15"), options_obligation("C15"), handlers_obligation("C15")]
